@@ -219,7 +219,14 @@ def correspond(ctx, scale):
     for ci in range((6 if not ctx.thorough else 40) * scale):
         w = [0.25, 1.0, 0.0][ci % 3]
         cw = rng.choice([1.0, 0.5])
-        q = SimVQ(dim=3, codebook_size=6, input_to_quantize_commit_loss_weight=w, commitment_weight=cw, rotation_trick=ci % 2 == 0)
+        coupled_tr = None
+        if ci % 3 == 2:
+            # a code transform that COUPLES the codes (batch statistics over the codebook rows in training mode): the loss is against the selected entry of
+            # code_transform(frozen_codebook) as a whole
+            from torch import nn as _nn
+            coupled_tr = _nn.Sequential(_nn.Linear(3, 5), _nn.BatchNorm1d(5), _nn.ReLU(), _nn.Linear(5, 3))
+            dist['simvq_coupled_transform'] = dist.get('simvq_coupled_transform', 0) + 1
+        q = SimVQ(dim=3, codebook_size=6, input_to_quantize_commit_loss_weight=w, commitment_weight=cw, rotation_trick=ci % 2 == 0, codebook_transform=coupled_tr)
         q.train()
         x = torch.randn(2, 4, 3)
         with torch.no_grad():
